@@ -109,10 +109,13 @@ Judge(e, kind, s, why) ==
 
 \* the harness masters the image and opens it in a fresh object: e.wres, e.ores, view e.o
 MasterStep(e) ==
-    IF e.wres # "ok" THEN Emit("master", e, {"WriteFails"}, e.wres) /\ st' = st
+    IF e.wres # "ok" THEN Emit("master", e, {"WriteFails"} \cup (IF e.base \in {"same", "none"} THEN {}
+                         ELSE IF e.basekind = "refused" THEN {"RefusedDiff"} ELSE {"ScheduleDiff"}), e.wres) /\ st' = st
     ELSE IF e.ores # "ok" THEN Emit("master", e, {"OpenFails"}, e.ores) /\ st' = st
-    ELSE \E m \in {Mismatch(st, Obs[e.o])} :
-         /\ (m # {} => Emit("master", e, m, ""))
+    ELSE \E m \in {Mismatch(st, Obs[e.o])
+                   \cup (IF e.base \in {"same", "none"} THEN {}
+                         ELSE IF e.basekind = "refused" THEN {"RefusedDiff"} ELSE {"ScheduleDiff"})} :
+         /\ (m # {} => Emit("master", e, m, e.base))
          /\ st' = st
 
 ApiStep(e) ==
